@@ -11,7 +11,10 @@ from ..ruleprops import violation
 
 RULE = ("tie-rich elections (<=5 projects, equal costs, duplicated ballots) x {greedy, Equal Shares, Phragmen} x additive and "
         "non-additive measures x Profile/MultiProfile; the irresolute call is compared with the union of resolute calls under all m! "
-        "permutation tie-breaking rules; non-trivial = at least 2 distinct irresolute outcomes")
+        "permutation tie-breaking rules; non-trivial = at least 2 distinct irresolute outcomes; a third of the cases start from a feasible "
+        "initial allocation handed over as a plain list or as ONE caller-owned BudgetAllocation object (possibly empty) that is reused for "
+        "every call of the enumeration, as a caller holding the outcome of an earlier rule would; there the irresolute call is made before "
+        "and after the resolute runs and is also compared with the independent definition enumerating every tie branch")
 ASSUMPTIONS = ["<=5 projects so that all m! strict orders are enumerated"]
 
 
@@ -49,9 +52,23 @@ def check_case(ctx, case, cfg):
     built = rules.Built(case, multi=cfg.get("multi", False))
     rulegen.fix_loads(cfg, built)
     cfg_irr = dict(cfg, res=False)
-    ans, raw = rules.impl_answer(built, cfg_irr)
+    shared = None
+    if cfg.get("init_as") == "shared_ba":
+        # the election's objects (instance, profile) are built once and used for every call below; so is the initial allocation
+        from pabutools.rules import BudgetAllocation
+
+        shared = BudgetAllocation([built.projs[nm] for nm in (cfg.get("init") or [])])
+
+    def impl_answer(c):
+        if shared is not None:
+            c = dict(c, init_obj=shared, init_obj_pass_empty=True)
+        return rules.impl_answer(built, c)
+
+    ans, raw = impl_answer(cfg_irr)
     out = []
     sig = {"rule": cfg["rule"], "sat": cfg.get("sat"), "multi": bool(cfg.get("multi"))}
+    if cfg.get("init_as"):
+        sig["init_as"] = cfg["init_as"]
     if ans[0] == "err":
         return [violation(f"irresolute call raised {ans[1]}: {raw!r}", case, cfg_irr, impl=rules.canon(ans), sig=dict(sig, err=ans[1]))], None, None
     irr = [tuple(sorted(w)) for w in ans[1]]
@@ -60,7 +77,7 @@ def check_case(ctx, case, cfg):
     union = set()
     for tie in all_orders(case):
         c2 = dict(cfg, res=True, tie=tie)
-        a2, r2 = rules.impl_answer(built, c2)
+        a2, r2 = impl_answer(c2)
         if a2[0] == "err":
             out.append(violation(f"resolute call under {tie} raised {a2[1]}", case, c2, impl=rules.canon(a2), sig=dict(sig, err=a2[1])))
             continue
@@ -77,10 +94,41 @@ def check_case(ctx, case, cfg):
         if tie == "app_score" and case.btype != "app":
             continue
         c2 = dict(cfg, res=True, tie=tie)
-        a2, r2 = rules.impl_answer(built, c2)
+        a2, r2 = impl_answer(c2)
         if a2[0] == "ok" and tuple(sorted(a2[1])) not in set(irr):
             out.append(violation(f"resolute outcome under the shipped rule {tie} is not among the irresolute outcomes", case, c2, impl=sorted(a2[1]), expected=sorted(irr), sig=dict(sig, clause="shipped")))
+    if cfg.get("init_as"):
+        # a caller may just as well ask for the irresolute outcome after the resolute runs: same objects, same election, same answer
+        ans2, raw2 = impl_answer(cfg_irr)
+        if ans2[0] == "err":
+            out.append(violation(f"irresolute call made after the resolute runs raised {ans2[1]}: {raw2!r}", case, cfg_irr, impl=rules.canon(ans2), sig=dict(sig, err=ans2[1], clause="irr_after")))
+        elif not out and set(tuple(sorted(w)) for w in ans2[1]) != union:
+            out.append(violation("the irresolute call made after the resolute runs (same objects) is not the set of resolute outcomes over all strict orders", case, cfg_irr,
+                                 impl=sorted(tuple(sorted(w)) for w in ans2[1]), expected=sorted(union), sig=dict(sig, clause="irr_after")))
+        # ... and the independent definition, every tie branch followed
+        exp = expected_outcomes(case, cfg_irr, built, ans, raw)
+        if exp is not None and not out and sorted(set(irr)) != exp:
+            out.append(violation("irresolute outcomes differ from the set of outcomes reachable by breaking ties in every possible way", case, cfg_irr,
+                                 impl=sorted(irr), expected=exp, sig=dict(sig, clause="definition")))
     return out, irr, (built, cfg_irr, ans)
+
+
+def expected_outcomes(case, cfg, built, ans, raw):
+    """all outcomes of the textbook definition with every tie branch followed (sorted id tuples); None where the definition of the start
+    from a non-empty initial allocation is not ours to fix (Equal Shares: the voters' money is not reduced by the library)"""
+    from . import C02, C03
+
+    init = cfg.get("init") or []
+    it = ruleprops.Item(case, cfg, built, ans, raw, None)
+    if cfg["rule"] == "mes":
+        if init:
+            return None
+        exp = oracle.mes(case, C02.utilities_for(it), branch=True)
+    elif cfg["rule"] == "greedy":
+        exp = oracle.greedy(case, C03.tsat_for(it), init=init, branch=True)
+    else:
+        exp = oracle.phragmen(case, init=init, branch=True)
+    return sorted(tuple(sorted(case.rank[p] for p in s)) for s in exp)
 
 
 def pairs(ctx, n):
@@ -92,7 +140,16 @@ def pairs(ctx, n):
         cfg.pop("loads_per_voter", None)
         if cfg["rule"] == "greedy" and cfg.get("additive") is True:
             cfg["additive"] = None
+        if rng.random() < 0.34:
+            # the run starts from an initial allocation (often empty), given as a list or as one object shared by all the calls
+            cfg["init"] = core.gen_init(rng, case) if rng.random() < 0.5 else _nonempty_init(rng, case)
+            cfg["init_as"] = rng.choice(["list", "shared_ba", "shared_ba"])
         yield case, cfg
+
+
+def _nonempty_init(rng, case):
+    fits = [n for n, c in case.projects if c <= case.budget]
+    return [rng.choice(fits)] if fits else []
 
 
 def run(ctx, n=None, compare=True):
@@ -108,6 +165,7 @@ def run(ctx, n=None, compare=True):
         ctx.count("sat", cfg.get("sat") or "-")
         ctx.count("m", str(len(case.projects)))
         ctx.count("multi", str(bool(cfg.get("multi"))))
+        ctx.count("initial_allocation", (cfg.get("init_as") or "none") + ("" if not cfg.get("init_as") else (":nonempty" if cfg.get("init") else ":empty")))
         ctx.violations.extend(vs)
         if irr is not None:
             ctx.count("n_outcomes", str(min(len(irr), 6)))
